@@ -287,6 +287,12 @@ func commitDirArtifact(
 	if err != nil {
 		return err
 	}
+	// A link where the directory should be is not that directory: status and
+	// checkout treat it as "incorrect file type", and committing through it
+	// would move the files of whatever the link points to.
+	if status.WorkspaceFileStatus == fsutil.StatusLink {
+		return errors.Errorf("%s: expected directory, got %s", workPath, status.WorkspaceFileStatus)
+	}
 
 	var oldManifest directoryManifest
 	if status.ChecksumInCache {
